@@ -134,7 +134,7 @@ def run(name, ids, tier='quick'):
             t0 = time.time()
             evp = os.path.join(VERIF, 'evidence', '%s.json' % i)
             saved = open(evp).read() if os.path.exists(evp) else None
-            rc, out = sh('./check %s --tier %s' % (i, tier), cwd=VERIF, timeout=3000)
+            rc, out = sh('./check %s --tier %s' % (i, tier), cwd=VERIF, timeout=900)
             if saved is not None:
                 open(evp, 'w').write(saved)     # evidence files describe runs against the unchanged tree only
             lines = [l for l in out.splitlines() if l.startswith('VIOLATION') or l.startswith('KNOWN-FINDING')]
